@@ -501,13 +501,33 @@ static void working_sets(struct sim *s, struct plist *l, int upto, const bset *p
 	}
 }
 
+/* Error Report text: mostly a short phrase; one report in five is padded so that the whole PDU is as long as the
+ * protocol allows (or a few bytes less) - the client holds a received PDU in a buffer of exactly that size */
+static const char *err_text(struct rng *r, char *buf, size_t bufsz, uint32_t enc_len, const char *dflt)
+{
+	uint32_t total, tl;
+
+	if (!rndp(r, 1, 5))
+		return dflt;
+	total = rndp(r, 1, 2) ? 3248 : 3248 - rndn(r, 12);
+	tl = total - 16 - enc_len;
+	if (tl + 1 > bufsz)
+		return dflt;
+	for (uint32_t i = 0; i < tl; i++)
+		buf[i] = (char)('a' + i % 26);
+	buf[tl] = 0;
+	CNT(total == 3248 ? "sim/error_report_of_maximum_length" : "sim/error_report_near_maximum_length");
+	return buf;
+}
+
 static void apply_defect(struct sim *s, struct exchange *ex, struct plist *l, const struct xplan *pl, int av, bool *silent,
 			 bool *close_after, size_t *cut_extra)
 {
 	int d = pl->defect;
 	int ndata = l->n - 2; /* list is [CR, data..., EOD] on entry */
 	int pos = pl->pos;
-	uint8_t tmp[256];
+	uint8_t tmp[4096];
+	char etxt[3300];
 	bset p0, k0, wp, wk;
 	int capu = s->cache.announce_cap < s->u->np ? s->cache.announce_cap : s->u->np;
 	bool use_key = av == 1 && s->u->nk > 0 && rndp(&s->rng, 1, 4);
@@ -710,7 +730,7 @@ static void apply_defect(struct sim *s, struct exchange *ex, struct plist *l, co
 		if (pos < 0 || pos >= l->n)
 			pos = (int)rndn(&s->rng, (uint32_t)l->n);
 		n = pdu_error(tmp, rndp(&s->rng, 1, 4) ? (int)rndn(&s->rng, 3) : av, (uint16_t)(pl->param ? pl->param % 9 : rndn(&s->rng, 9)),
-			      l->b[0], 8, "simulated cache error");
+			      l->b[0], 8, err_text(&s->rng, etxt, sizeof(etxt), 8, "simulated cache error"));
 		if (d == D_ERRPDU_MALFORMED) {
 			if (rndp(&s->rng, 1, 2))
 				w32(tmp + 8, (uint32_t)n + rndn(&s->rng, 4000)); /* encapsulated length beyond the PDU */
@@ -910,7 +930,12 @@ void sim_answer_query(struct sim *s, uint8_t qtype, uint8_t qver, uint16_t qsess
 			qn = 8;
 			w32(q + 4, 8);
 		}
-		pl_push(&l, tmp, (unsigned int)pdu_error(tmp, ev, (uint16_t)code, q, (uint32_t)qn, code == 2 ? "No data available" : "simulated"));
+		{
+			char etxt[3300];
+
+			pl_push(&l, tmp, (unsigned int)pdu_error(tmp, ev, (uint16_t)code, q, (uint32_t)qn,
+							      err_text(&s->rng, etxt, sizeof(etxt), (uint32_t)qn, code == 2 ? "No data available" : "simulated")));
+		}
 	} else {
 		/* a regular answer derived from the data history */
 		int from = -1;
